@@ -83,6 +83,10 @@ type Obs struct {
 	COps        []OpObs
 	CFirstSeg   int
 	Panic       string
+	// live objects of the session (for the tamper engine)
+	CC netio.Conn `json:"-"` // the client's tunnel conn
+	CT *Conn      `json:"-"` // its transport
+	ST *Conn      `json:"-"` // the server's transport
 }
 
 // Script is the driver script of a session and, per line, the answer the implementation's
@@ -92,7 +96,7 @@ type Script struct {
 	Expect []string
 }
 
-func (s *Script) add(line, expect string) {
+func (s *Script) Add(line, expect string) {
 	s.Lines = append(s.Lines, line)
 	s.Expect = append(s.Expect, expect)
 }
@@ -109,6 +113,9 @@ func Match(expect, got string) bool {
 		g, _, _ := strings.Cut(got, ":")
 		return e == g
 	}
+	if strings.HasPrefix(expect, "ok-len ") {
+		return strings.HasPrefix(got, "ok "+strings.TrimPrefix(expect, "ok-len ")+":")
+	}
 	if strings.HasPrefix(expect, "copied* ") {
 		ef := strings.Fields(expect)
 		gf := strings.Fields(got)
@@ -118,7 +125,7 @@ func Match(expect, got string) bool {
 }
 
 // structural boundaries of a wire, for the "cuts" segmentation
-func reqBoundaries(c Cfg, f ReqFrames, stripped bool) []int {
+func ReqBoundaries(c Cfg, f ReqFrames, stripped bool) []int {
 	var b []int
 	off := c.ReqPrefix.Len
 	b = append(b, off)
@@ -145,7 +152,7 @@ func reqBoundaries(c Cfg, f ReqFrames, stripped bool) []int {
 	return b
 }
 
-func respBoundaries(c Cfg, f RespFrames) []int {
+func RespBoundaries(c Cfg, f RespFrames) []int {
 	if f.Salt == nil {
 		return nil
 	}
@@ -343,7 +350,7 @@ func (a *auxSink) pieces(forClientReader, started bool) ([][]byte, string) {
 	return append([][]byte{f.First}, f.Chunks...), f.Err
 }
 
-func runOps(rd netio.Conn, ops []ROp, cfg Cfg, target Target, clientReader, sinkStarted bool) (out []OpObs) {
+func RunOps(rd netio.Conn, ops []ROp, cfg Cfg, target Target, clientReader, sinkStarted bool) (out []OpObs) {
 	for _, op := range ops {
 		o := OpObs{Op: op}
 		pan := common.Safely(func() {
@@ -395,7 +402,7 @@ func runOps(rd netio.Conn, ops []ROp, cfg Cfg, target Target, clientReader, sink
 	return
 }
 
-func opLine(sid int, side string, op ROp, now int64, started bool) string {
+func OpLine(sid int, side string, op ROp, now int64, started bool) string {
 	switch {
 	case side == "s" && op.Kind == "read":
 		return fmt.Sprintf("%d sread %d", sid, op.N)
@@ -411,7 +418,7 @@ func opLine(sid int, side string, op ROp, now int64, started bool) string {
 	return fmt.Sprintf("%d ctunnel %d %s", sid, now, B(started))
 }
 
-func opExpect(o OpObs, flatOnly bool) string {
+func OpExpect(o OpObs, flatOnly bool) string {
 	if strings.HasPrefix(o.Err, "panic:") && strings.Contains(o.Err, "nil pointer") {
 		return "copied panic-nil-deref 0:cbf29ce484222325 -"
 	}
@@ -441,7 +448,7 @@ func opExpect(o OpObs, flatOnly bool) string {
 func Run(c Case, sid int) (obs Obs, sc Script) {
 	cfg := c.Cfg
 	keys := cfg.Keys()
-	sc.add(cfg.CfgLine(sid), "ok")
+	sc.Add(cfg.CfgLine(sid), "ok")
 	pan := common.Safely(func() { run(c, sid, cfg, keys, &obs, &sc) })
 	if pan != nil {
 		obs.Panic = fmt.Sprint(pan)
@@ -463,6 +470,7 @@ func run(c Case, sid int, cfg Cfg, keys Keys, obs *Obs, sc *Script) {
 		return
 	}
 	ct := d.Last
+	obs.CC, obs.CT = cc, ct
 	marks := []int{len(ct.Writes)}
 	for _, o := range c.CWrites {
 		if err := doWrites(cc, []WOp{o}); err != nil {
@@ -511,16 +519,16 @@ func run(c Case, sid int, cfg Cfg, keys Keys, obs *Obs, sc *Script) {
 		return SegSums(toy[off:end], ct.Writes[from:to])
 	}
 	if rnd < 0 {
-		sc.add(fmt.Sprintf("%d dial %s %s %s 0 %d", sid, c.Target.ModelArgs(), c.Payload.Field(), HexField(f.Salt), ts), "padding-length-zero-for-empty-payload")
+		sc.Add(fmt.Sprintf("%d dial %s %s %s 0 %d", sid, c.Target.ModelArgs(), c.Payload.Field(), HexField(f.Salt), ts), "padding-length-zero-for-empty-payload")
 	} else {
-		sc.add(fmt.Sprintf("%d dial %s %s %s %d %d", sid, c.Target.ModelArgs(), c.Payload.Field(), HexField(f.Salt), rnd, ts),
+		sc.Add(fmt.Sprintf("%d dial %s %s %s %d %d", sid, c.Target.ModelArgs(), c.Payload.Field(), HexField(f.Salt), rnd, ts),
 			fmt.Sprintf("ok inreq=%d segs %s", inReq, toySeg(0, marks[0])))
 	}
 	for i, o := range c.CWrites {
 		if o.Kind == "readfrom" {
-			sc.add(fmt.Sprintf("%d creadfrom %s %s", sid, o.Data.Field(), Csv(o.Sizes)), "segs "+toySeg(marks[i], marks[i+1]))
+			sc.Add(fmt.Sprintf("%d creadfrom %s %s", sid, o.Data.Field(), Csv(o.Sizes)), "segs "+toySeg(marks[i], marks[i+1]))
 		} else {
-			sc.add(fmt.Sprintf("%d cwrite %s", sid, o.Data.Field()), "segs "+toySeg(marks[i], marks[i+1]))
+			sc.Add(fmt.Sprintf("%d cwrite %s", sid, o.Data.Field()), "segs "+toySeg(marks[i], marks[i+1]))
 		}
 	}
 	// ---- relays ----
@@ -531,9 +539,9 @@ func run(c Case, sid int, cfg Cfg, keys Keys, obs *Obs, sc *Script) {
 		pl := cfg.ReqPrefix.Len + cfg.KeyLen
 		toyS = append(bytes.Clone(toyS[:pl]), toyS[pl+16:]...)
 		if ok {
-			sc.add(l, "ok "+Sum(toyS))
+			sc.Add(l, "ok "+Sum(toyS))
 		} else {
-			sc.add(l, "fail")
+			sc.Add(l, "fail")
 		}
 	}
 	if !ok {
@@ -555,8 +563,9 @@ func run(c Case, sid int, cfg Cfg, keys Keys, obs *Obs, sc *Script) {
 	if cfg.NIPSK > 1 {
 		writes = [][]byte{swire}
 	}
-	sizes := c.C2S.Sizes(len(swire), writes, reqBoundaries(cfg, f, true), fixedLen, cfg.AllowSeg)
+	sizes := c.C2S.Sizes(len(swire), writes, ReqBoundaries(cfg, f, true), fixedLen, cfg.AllowSeg)
 	st := &Conn{}
+	obs.ST = st
 	st.SetScript(swire, sizes)
 	obs.FirstSeg = len(swire)
 	if len(sizes) > 0 {
@@ -568,10 +577,10 @@ func run(c Case, sid int, cfg Cfg, keys Keys, obs *Obs, sc *Script) {
 	switch {
 	case herr != nil:
 		obs.HandleKind, obs.HandleErr = "error", ErrClass(herr)
-		sc.add(fmt.Sprintf("%d handle %d %d", sid, now, obs.FirstSeg), "error "+obs.HandleErr)
+		sc.Add(fmt.Sprintf("%d handle %d %d", sid, now, obs.FirstSeg), "error "+obs.HandleErr)
 	case req.Addr.Equals(FallbackAddr):
 		obs.HandleKind, obs.FallbackPay = "fallback", pay
-		sc.add(fmt.Sprintf("%d handle %d %d", sid, now, obs.FirstSeg), "fallback "+Sum(pay))
+		sc.Add(fmt.Sprintf("%d handle %d %d", sid, now, obs.FirstSeg), "fallback "+Sum(pay))
 	default:
 		obs.HandleKind = "request"
 		obs.ReqAddr, obs.ReqUser, obs.ReqPayload = AddrBytes(req.Addr), req.Username, pay
@@ -579,7 +588,7 @@ func run(c Case, sid int, cfg Cfg, keys Keys, obs *Obs, sc *Script) {
 		if u == "" {
 			u = "-"
 		}
-		sc.add(fmt.Sprintf("%d handle %d %d", sid, now, obs.FirstSeg), fmt.Sprintf("request %s %s %s", HexField(obs.ReqAddr)[1:], u, Sum(pay)))
+		sc.Add(fmt.Sprintf("%d handle %d %d", sid, now, obs.FirstSeg), fmt.Sprintf("request %s %s %s", HexField(obs.ReqAddr)[1:], u, Sum(pay)))
 		sconn, err = req.Proceed()
 		if err != nil {
 			obs.HandleErr = "proceed: " + err.Error()
@@ -590,9 +599,9 @@ func run(c Case, sid int, cfg Cfg, keys Keys, obs *Obs, sc *Script) {
 		return
 	}
 	serverReads := func() {
-		obs.SOps = runOps(sconn, c.SReads, cfg, c.Target, false, true)
+		obs.SOps = RunOps(sconn, c.SReads, cfg, c.Target, false, true)
 		for _, o := range obs.SOps {
-			sc.add(opLine(sid, "s", o.Op, now, true), opExpect(o, false))
+			sc.Add(OpLine(sid, "s", o.Op, now, true), OpExpect(o, false))
 		}
 	}
 	serverWrites := func() {
@@ -636,9 +645,9 @@ func run(c Case, sid int, cfg Cfg, keys Keys, obs *Obs, sc *Script) {
 		for i, o := range c.SWrites {
 			choice := fmt.Sprintf("%s %d %d %d", HexField(rf.Salt), rts, capW, capBig)
 			if o.Kind == "readfrom" {
-				sc.add(fmt.Sprintf("%d sreadfrom %s %s %s", sid, o.Data.Field(), Csv(o.Sizes), choice), "ok segs "+rseg(m[i], m[i+1]))
+				sc.Add(fmt.Sprintf("%d sreadfrom %s %s %s", sid, o.Data.Field(), Csv(o.Sizes), choice), "ok segs "+rseg(m[i], m[i+1]))
 			} else {
-				sc.add(fmt.Sprintf("%d swrite %s %s", sid, o.Data.Field(), choice), "ok segs "+rseg(m[i], m[i+1]))
+				sc.Add(fmt.Sprintf("%d swrite %s %s", sid, o.Data.Field(), choice), "ok segs "+rseg(m[i], m[i+1]))
 			}
 		}
 	}
@@ -655,19 +664,77 @@ func run(c Case, sid int, cfg Cfg, keys Keys, obs *Obs, sc *Script) {
 	// ---- client: reads ----
 	rwire := st.Wire()
 	rfixed := cfg.RespPrefix.Len + cfg.KeyLen + 11 + cfg.KeyLen + TagSize
-	rsizes := c.S2C.Sizes(len(rwire), st.Writes, respBoundaries(cfg, obs.RespFrames), rfixed, cfg.AllowSeg)
+	rsizes := c.S2C.Sizes(len(rwire), st.Writes, RespBoundaries(cfg, obs.RespFrames), rfixed, cfg.AllowSeg)
 	ct.SetScript(rwire, rsizes)
 	obs.CFirstSeg = len(rwire)
 	if len(rsizes) > 0 {
 		obs.CFirstSeg = min(rsizes[0], len(rwire))
 	}
-	sc.add(fmt.Sprintf("%d cseg %d", sid, obs.CFirstSeg), "ok")
+	sc.Add(fmt.Sprintf("%d cseg %d", sid, obs.CFirstSeg), "ok")
 	now = time.Now().Unix()
-	obs.COps = runOps(cc, c.CReads, cfg, c.Target, true, c.SinkStarted)
+	obs.COps = RunOps(cc, c.CReads, cfg, c.Target, true, c.SinkStarted)
 	for _, o := range obs.COps {
 		flatOnly := o.Op.Kind == "tunnel" && !c.SinkStarted
-		sc.add(opLine(sid, "c", o.Op, now, c.SinkStarted), opExpect(o, flatOnly))
+		sc.Add(OpLine(sid, "c", o.Op, now, c.SinkStarted), OpExpect(o, flatOnly))
 	}
 }
 
 const ss2022StreamWriteBufferSize = 2 + 16 + 0xFFFF + 16
+
+// HandleObs is the outcome of presenting a wire to a fresh server.
+type HandleObs struct {
+	Kind, Err   string
+	Addr        []byte
+	User        string
+	Payload     []byte
+	FallbackPay []byte
+	FirstSeg    int
+}
+
+// Present hands `wire` (cut by sizes) to a fresh real server of cfg, records the driver's `handle`
+// line with the answer that corresponds to the implementation's result, and returns the accepted conn.
+func Present(cfg Cfg, wire []byte, sizes []int, sid int, sc *Script) (h HandleObs, sconn netio.Conn, st *Conn) {
+	sv, err := cfg.NewServer()
+	if err != nil {
+		h.Kind, h.Err = "error", "harness:"+err.Error()
+		return
+	}
+	st = &Conn{}
+	st.SetScript(wire, sizes)
+	h.FirstSeg = len(wire)
+	if len(sizes) > 0 {
+		h.FirstSeg = min(sizes[0], len(wire))
+	}
+	now := time.Now().Unix()
+	var req netio.ConnRequest
+	var pay []byte
+	var herr error
+	if pan := common.Safely(func() { req, pay, herr = Handle(sv, st) }); pan != nil {
+		h.Kind, h.Err = "error", fmt.Sprintf("panic:%v", pan)
+		sc.Add(fmt.Sprintf("%d handle %d %d", sid, now, h.FirstSeg), "error "+h.Err)
+		return
+	}
+	line := fmt.Sprintf("%d handle %d %d", sid, now, h.FirstSeg)
+	switch {
+	case herr != nil:
+		h.Kind, h.Err = "error", ErrClass(herr)
+		sc.Add(line, "error "+h.Err)
+	case req.Addr.Equals(FallbackAddr):
+		h.Kind, h.FallbackPay = "fallback", pay
+		sc.Add(line, "fallback "+Sum(pay))
+	default:
+		h.Kind = "request"
+		h.Addr, h.User, h.Payload = AddrBytes(req.Addr), req.Username, pay
+		u := req.Username
+		if u == "" {
+			u = "-"
+		}
+		sc.Add(line, fmt.Sprintf("request %s %s %s", HexField(h.Addr)[1:], u, Sum(pay)))
+		sconn, err = req.Proceed()
+		if err != nil {
+			h.Err = "proceed: " + err.Error()
+			sconn = nil
+		}
+	}
+	return
+}
